@@ -40,13 +40,15 @@ pub enum Call {
 pub enum Site {
     SelectWhere,
     SelectHaving,
+    /// HAVING on a select without GROUP BY (the whole table is one group)
+    SelectHavingNoGroup,
     UpdateWhere,
     DeleteWhere,
     JoinOn,
     CaseWhen,
 }
 
-pub const SITES: [Site; 6] = [Site::SelectWhere, Site::SelectHaving, Site::UpdateWhere, Site::DeleteWhere, Site::JoinOn, Site::CaseWhen];
+pub const SITES: [Site; 7] = [Site::SelectWhere, Site::SelectHaving, Site::UpdateWhere, Site::DeleteWhere, Site::JoinOn, Site::CaseWhen, Site::SelectHavingNoGroup];
 
 #[derive(Serialize, Deserialize, Clone, Debug, PartialEq, Eq, Hash)]
 pub struct Case {
@@ -234,11 +236,17 @@ fn render(site: Site, calls: &[Call], d: Dialect) -> String {
             apply_where(&mut q, calls);
             with_backend!(d, b => q.to_string(b))
         }
-        Site::SelectHaving => {
-            let mut q = Query::select().columns([a("p"), a("q"), a("r"), a("s")]).from(a("tt")).to_owned();
-            for c in ["p", "q", "r", "s"] {
-                q.group_by_col(a(c));
-            }
+        Site::SelectHaving | Site::SelectHavingNoGroup => {
+            let mut q = if site == Site::SelectHaving {
+                let mut q = Query::select().columns([a("p"), a("q"), a("r"), a("s")]).from(a("tt")).to_owned();
+                for c in ["p", "q", "r", "s"] {
+                    q.group_by_col(a(c));
+                }
+                q
+            } else {
+                // no GROUP BY: the whole (one-row) table is a single group
+                Query::select().expr(Func::count(Expr::col(Asterisk))).from(a("one_row")).to_owned()
+            };
             for c in calls {
                 match c {
                     Call::And(i) => {
@@ -367,6 +375,8 @@ fn make_db() -> Db {
     let db = Db::memory();
     db.exec("CREATE TABLE \"tt\" (\"id\" INTEGER PRIMARY KEY, \"p\" INT, \"q\" INT, \"r\" INT, \"s\" INT, \"mark\" INT DEFAULT 0)").unwrap();
     db.exec("CREATE TABLE \"one\" (\"k\" INT)").unwrap();
+    db.exec("CREATE TABLE \"one_row\" (\"p\" INT, \"q\" INT, \"r\" INT, \"s\" INT)").unwrap();
+    db.exec("INSERT INTO \"one_row\" VALUES (0, 0, 0, 0)").unwrap();
     db.exec("INSERT INTO \"one\" VALUES (1)").unwrap();
     for (id, row) in all_rows().iter().enumerate() {
         let f = |v: Option<i64>| v.map(|x| x.to_string()).unwrap_or("NULL".into());
@@ -403,7 +413,7 @@ pub fn check(c: &Case, obs: &mut Obs) -> R {
     let site = c.site;
     let kw = match site {
         Site::SelectWhere | Site::UpdateWhere | Site::DeleteWhere => "WHERE",
-        Site::SelectHaving => "HAVING",
+        Site::SelectHaving | Site::SelectHavingNoGroup => "HAVING",
         Site::JoinOn => "ON",
         Site::CaseWhen => "WHEN",
     };
@@ -417,7 +427,7 @@ pub fn check(c: &Case, obs: &mut Obs) -> R {
             Ok(t) => t,
             Err(e) => return fail(sig("lex-error"), format!("{sql:?}: {e:?}; calls {:?}", c.calls)),
         };
-        if !given && matches!(site, Site::SelectWhere | Site::SelectHaving | Site::UpdateWhere | Site::DeleteWhere) {
+        if !given && matches!(site, Site::SelectWhere | Site::SelectHaving | Site::SelectHavingNoGroup | Site::UpdateWhere | Site::DeleteWhere) {
             if has_keyword(&toks, kw) {
                 return fail(sig("predicate-without-condition"), format!("no condition was given but {sql:?} contains {kw}; calls {:?}", c.calls));
             }
@@ -478,6 +488,33 @@ pub fn check(c: &Case, obs: &mut Obs) -> R {
                         .collect();
                     v.sort();
                     v
+                }),
+                Site::SelectHavingNoGroup => BASE.with(|base| {
+                    // one row at a time: the single group satisfies HAVING iff the conjunction is TRUE for that row
+                    let mut sel: Vec<i64> = vec![];
+                    for (i, row) in rows.iter().enumerate() {
+                        if i % 16 != 5 && given {
+                            // a fixed sample of 16 assignments (every query is a separate execution)
+                            if matches!(expected[i], Some(Some(true)) | None) && i % 16 != 5 {
+                                sel.push(i as i64);
+                            }
+                            continue;
+                        }
+                        let f = |v: Option<i64>| v.map(|x| x.to_string()).unwrap_or("NULL".into());
+                        let r = base.rolled_back(|db| {
+                            db.exec(&format!("UPDATE \"one_row\" SET \"p\" = {}, \"q\" = {}, \"r\" = {}, \"s\" = {}", f(row[0]), f(row[1]), f(row[2]), f(row[3])))?;
+                            db.rows(&sql)
+                        });
+                        match r {
+                            Ok(got) => {
+                                if got.len() == 1 {
+                                    sel.push(i as i64);
+                                }
+                            }
+                            Err(e) => return Err(e.msg),
+                        }
+                    }
+                    Ok(sel)
                 }),
                 Site::CaseWhen => BASE.with(|db| db.rows(&sql)).map_err(|e| e.msg).map(|got| {
                     let mut v: Vec<i64> = got.iter().filter(|r| r.get(1) == Some(&Cell::Int(1))).filter_map(|r| if let Cell::Int(i) = r[0] { Some(i) } else { None }).collect();
@@ -626,12 +663,12 @@ fn call_strategy() -> impl Strategy<Value = Call> {
     ]
 }
 
-fn case_strategy() -> impl Strategy<Value = Case> {
+pub fn case_strategy() -> impl Strategy<Value = Case> {
     (any::<u16>(), proptest::collection::vec(call_strategy(), 0..5)).prop_map(|(si, calls)| Case { site: SITES[pick_idx(si, SITES.len())], calls })
 }
 
 pub fn run(ctx: &mut Ctx) {
-    ctx.rule = "cases = (site, history of condition-adding calls): sites are SELECT WHERE / HAVING, UPDATE WHERE, DELETE WHERE, JOIN ON, CASE WHEN; \
+    ctx.rule = "cases = (site, history of condition-adding calls): sites are SELECT WHERE / HAVING (with and without GROUP BY), UPDATE WHERE, DELETE WHERE, JOIN ON, CASE WHEN; \
 calls are and_where / and_where_option / cond_where (and the HAVING equivalents) with condition trees of any/all groups, negate flags, empty groups and \
 add_option(None) members over 10 atoms on four columns. Exhaustive: every tree of depth <= 1 (width <= 3), every depth-2 tree of width <= 2 over the depth-1 trees \
 on 2 atoms, and every pair of calls over the depth-1 trees on 2 atoms (width <= 2); random: histories of up to 4 calls with trees up to depth 3. Every case is decided on all 256 \
@@ -670,7 +707,7 @@ three-valued assignments. Non-trivial = at least 2 adding calls, or nesting dept
                 k -= 1 + nb;
                 vec![member(k / nb), member(k % nb)]
             };
-            let site = [Site::SelectWhere, Site::SelectHaving, Site::JoinOn, Site::CaseWhen, Site::UpdateWhere][(i % 5) as usize];
+            let site = [Site::SelectWhere, Site::SelectHaving, Site::JoinOn, Site::CaseWhen, Site::UpdateWhere, Site::SelectHavingNoGroup][(i % 6) as usize];
             Case { site, calls: vec![Call::Cond(CS::Group { any: flags & 1 == 1, negate: flags & 2 == 2, members })] }
         },
         &check,
